@@ -87,6 +87,26 @@ AssemblePolys(os0, is0) ==
   IN  [x \in 1..Len(os) |-> <<os[x]>> \o holesOf(x)] \o [y \in 1..Len(orphans) |-> <<Reverse(orphans[y])>>]
 RevPolys(ps) == [p \in 1..Len(ps) |-> [r \in 1..Len(ps[p]) |-> Reverse(ps[p][r])]]
 
+(* ---------------- the same two stages AS THE CODE DOES THEM (Impl = "code") ---------------- *)
+(* Dedupe.tla (kmpDeduplicate), SplitRing.tla (splitRing) and Assemble.tla (dedupeInnersOuters + matchInnersToPolygons) are
+   transcriptions that the real functions are replayed against; with Impl = "code" the machine below runs them instead of the
+   reference operators, so TLC checks the properties on the algorithm the code really executes. *)
+CONSTANT Impl
+DD == INSTANCE Dedupe WITH Labels <- {}, MaxLen <- 0, ring <- <<>>
+SRR == INSTANCE SplitRing WITH Labels <- {}, MaxLen <- 0, ring <- <<>>, hm <- {}, phase <- ""
+ASM == INSTANCE Assemble WITH Size <- 0, MaxOuters <- 0, MaxInners <- 0, CatSel <- {}, os <- <<>>, is <- <<>>
+CodeCleanup(pts, isOuter, hm) ==
+  IF Len(pts) = 0 THEN [o |-> <<>>, i |-> <<>>, p |-> <<>>, bad |-> FALSE]
+  ELSE IF Len(pts) < 3 THEN [o |-> <<>>, i |-> <<>>, p |-> <<pts>>, bad |-> FALSE]
+  ELSE LET d == DD!CodeDedupe(pts)
+       IN  IF d.panic # "" THEN [o |-> <<>>, i |-> <<>>, p |-> <<>>, bad |-> TRUE]
+           ELSE IF Len(d.out) < 3 THEN [o |-> <<>>, i |-> <<>>, p |-> <<d.out>>, bad |-> FALSE]
+           ELSE LET c == SRR!CodeLoops(d.out, hm)
+                IN  IF c.panic # "" THEN [o |-> <<>>, i |-> <<>>, p |-> <<>>, bad |-> TRUE]
+                    ELSE Classify(c.loops, isOuter) @@ [bad |-> FALSE]
+CleanupX(pts, isOuter, hm) == IF Impl = "code" THEN CodeCleanup(pts, isOuter, hm) ELSE Cleanup(pts, isOuter) @@ [bad |-> FALSE]
+AssembleX(os0, is0) == IF Impl = "code" THEN ASM!CodeAssembly(os0, is0) ELSE AssemblePolys(os0, is0)
+
 (* ---------------- the machine ---------------- *)
 VARIABLES poly, keep, rev, ig, req, pc, vq, hot, live, ri, si, ring, chain, todo, outers, inners, pls, result
 vars == <<poly, keep, rev, ig, req, pc, vq, hot, live, ri, si, ring, chain, todo, outers, inners, pls, result>>
@@ -125,6 +145,13 @@ SnapSegment == /\ pc = "seg" /\ si <= Len(ring)
                          IN  chain[k] \o cl2]
                /\ si' = si + 1
                /\ UNCHANGED <<poly, keep, rev, ig, req, pc, vq, hot, live, ri, ring, todo, outers, inners, pls, result>>
+(* pointindex.go checkPointHits: centres the routes of the ring's segments (each without its first element) contain twice or more *)
+RECURSIVE HitCountK(_, _, _, _, _)
+HitCountK(rg, hotk, k, i, c) ==
+  IF i > Len(rg) THEN 0
+  ELSE LET rt == RouteSp(rg[i], Nxt(rg, i), hotk, SpanK(k))
+       IN  Cardinality({j \in 2..Len(rt) : rt[j] = c}) + HitCountK(rg, hotk, k, i + 1, c)
+HitMultipleK(rg, hotk, k) == {CentreK(c, k) : c \in {x \in hotk : HitCountK(rg, hotk, k, 1, x) >= 2}}
 SegmentsDone == /\ pc = "seg" /\ si > Len(ring) /\ pc' = "finish" /\ todo' = live
                 /\ UNCHANGED <<poly, keep, rev, ig, req, vq, hot, live, ri, si, ring, chain, outers, inners, pls, result>>
 (* snap.go:123-135, levels in any order *)
@@ -133,15 +160,17 @@ FinishRing(k) ==
   /\ LET c0 == chain[k]
          c  == IF Len(c0) > 1 /\ c0[1] = c0[Len(c0)] THEN SubSeq(c0, 1, Len(c0) - 1) ELSE c0     \* snap.go:386-389
          pts == [i \in 1..Len(c) |-> CentreK(c[i], k)]
-         cl == Cleanup(pts, ri = 1)
-     IN  IF ri = 1 /\ cl.o = <<>> /\ (~keep \/ cl.p = <<>>)
-         THEN /\ live' = live \ {k} /\ UNCHANGED <<outers, inners, pls>>                          \* the shell collapsed: level dropped
-         ELSE /\ outers' = [outers EXCEPT ![k] = @ \o cl.o]
-              /\ inners' = [inners EXCEPT ![k] = @ \o cl.i]
-              /\ pls' = [pls EXCEPT ![k] = IF keep THEN @ \o cl.p ELSE @]
-              /\ UNCHANGED live
+         cl == CleanupX(pts, ri = 1, HitMultipleK(ring, CoarseHot(k), k))
+     IN  IF cl.bad THEN /\ pc' = "panic" /\ UNCHANGED <<live, outers, inners, pls>>            \* the code's own guards (C06)
+         ELSE /\ UNCHANGED pc
+              /\ IF ri = 1 /\ cl.o = <<>> /\ (~keep \/ cl.p = <<>>)
+                 THEN /\ live' = live \ {k} /\ UNCHANGED <<outers, inners, pls>>                  \* the shell collapsed: level dropped
+                 ELSE /\ outers' = [outers EXCEPT ![k] = @ \o cl.o]
+                      /\ inners' = [inners EXCEPT ![k] = @ \o cl.i]
+                      /\ pls' = [pls EXCEPT ![k] = IF keep THEN @ \o cl.p ELSE @]
+                      /\ UNCHANGED live
   /\ todo' = todo \ {k}
-  /\ UNCHANGED <<poly, keep, rev, ig, req, pc, vq, hot, ri, si, ring, chain, result>>
+  /\ UNCHANGED <<poly, keep, rev, ig, req, vq, hot, ri, si, ring, chain, result>>
 RingDone == /\ pc = "finish" /\ todo = {}
             /\ pc' = IF ri < Len(poly) THEN "ring" ELSE "assemble"
             /\ todo' = IF ri < Len(poly) THEN {} ELSE live
@@ -151,7 +180,7 @@ NoMoreRings == /\ pc = "ring" /\ ri = Len(poly) /\ pc' = "assemble" /\ todo' = l
 (* snap.go:138-147, levels in any order *)
 Assemble(k) ==
   /\ pc = "assemble" /\ k \in todo
-  /\ LET ps0 == AssemblePolys(outers[k], inners[k])
+  /\ LET ps0 == AssembleX(outers[k], inners[k])
          ps  == IF rev THEN RevPolys(ps0) ELSE ps0
      IN  result' = IF ps = <<>> THEN result ELSE [x \in (DOMAIN result) \cup {k} |-> IF x = k THEN ps ELSE result[x]]
   /\ todo' = todo \ {k}
@@ -206,11 +235,11 @@ RefChain(P, r, k) ==
 RECURSIVE RefLevel(_, _, _, _, _, _)
 RefLevel(P, k, r, os, is, ps) ==      \* sequential reference for one level alone
   IF r > Len(P) THEN [o |-> os, i |-> is, p |-> ps, dropped |-> FALSE]
-  ELSE LET cl == Cleanup(RefChain(P, r, k), r = 1)
+  ELSE LET cl == CleanupX(RefChain(P, r, k), r = 1, HitMultipleK(NormRing(P[r], r > 1), {PixK(v, k) : v \in AllVerts(P)}, k))
        IN  IF r = 1 /\ cl.o = <<>> /\ (~keep \/ cl.p = <<>>) THEN [o |-> <<>>, i |-> <<>>, p |-> <<>>, dropped |-> TRUE]
            ELSE RefLevel(P, k, r + 1, os \o cl.o, is \o cl.i, IF keep THEN ps \o cl.p ELSE ps)
 RefResult(P, k) == LET L == RefLevel(P, k, 1, <<>>, <<>>, <<>>)
-                       ps0 == AssemblePolys(L.o, L.i)
+                       ps0 == AssembleX(L.o, L.i)
                        ps == IF rev THEN RevPolys(ps0) ELSE ps0
                    IN  IF L.dropped THEN <<>> ELSE ps \o [j \in 1..Len(L.p) |-> <<L.p[j]>>]
 C07C08_FunctionOfLevel == (Done /\ InGridPoly) => \A k \in req :
